@@ -20,12 +20,13 @@ CLAIMS = {
     'C08': ('proof', 'Verus proof that each data op dispatcher equals its spec function written from asm.yml (=~= over whole stack/memory)'),
     'C09': ('proof', 'Verus proof of jump/halt/repeat contracts, exec path semantics (path_ok/run_end_ok) and eval'),
     'C11': ('proof', 'Verus proof of operand popping, view/contract routing and the documented memory layout (layout_k) incl. frame and no-growth'),
-    'C12': ('proof', 'Verus proof of the access ops against spec functions; big-endian address words by complete Kani proofs; crypto primitives assumed'),
+    'C12': ('proof', 'Verus proof of the access ops against spec functions; big-endian address words by complete Kani proofs; PredicateExists and the crypto ops only bounded: xrun vmops against SHA-256 of the documented pre-image and against the hash / sign crates on the same bytes'),
     'C06': ('proof', 'Verus proof (no precondition on untrusted arguments) of decoders, validators, overlay and graph helpers: every index/slice/unwrap/arithmetic obligation discharged'),
-    'C18': ('proof', 'Verus proof that decode_mutation(s) invert the spec encoders and node_edges equals the documented sub-range; complete Kani proofs of the fixed-width conversions'),
-    'C16': ('proof', 'Verus proof of bi-implications: validators accept exactly the documented limits'),
+    'C18': ('proof', 'Verus proof that decode_mutation(s) invert the spec encoders and node_edges equals the documented sub-range; complete Kani proofs of the fixed-width conversions; encoders, hex and serde round trips (postcard / JSON / legacy names / Display-FromStr) only bounded (xrun codec)'),
+    'C16': ('proof', 'Verus proof of bi-implications: validators accept exactly the documented limits; check::decode_mutations keeps one mutation per (contract, key)'),
     'C04': ('proof', 'Verus proof that set validation is a symmetric predicate of the solutions incl. one mutation per (contract,key) across the set'),
-    'C01': ('other', 'Verus proof of the graph layer (create_parent_map Ok <==> graph_ok and node -> ascending parent list with multiplicity, in_degrees, find_deferred == descendant closure, helpers panic-free on all graphs); '
+    'C01': ('other', 'Verus proof of the graph layer (create_parent_map Ok <==> graph_ok and node -> ascending parent list with multiplicity, in_degrees, reduce_in_degrees, parallel_topo_sort: every node placed exactly once after all its parents and termination, '
+                     'find_deferred == descendant closure, remove_* soundness, helpers panic-free on all graphs); '
                      'the verdict of the two-pass entry point as a whole only bounded: exhaustive execution of the real checker against the reference semantics on all graphs of <= 3 nodes and a seventh of those with 4 (xrun graph)'),
     'C03': ('other', 'Verus proof of state-read routing (vm_core), of read_or_fallback == per-key overlay of proposed values on the pre-state (all ranges, deletions, key carry) and of find_deferred == descendant closure; '
                      'next_key, post-state map construction and pass sequencing only bounded (Kani next_key all words for key lengths 0,1,2,4; xrun graph: two-pass entry point vs reference semantics)'),
